@@ -164,6 +164,12 @@ def finalize(ctx):
                                 # and everything after it run once the taken branch completes"
                                 ctx.violate("C07", "join_did_not_run", f"{j['uname']} is {j['state']} at the end of the run although the "
                                                                        f"taken branch ({ex['uname']}) completed at {f}")
+                        elif getattr(ctx, "work_conserving", False) and not any(b.get("empty") for b in blk["branches"]):
+                            # nothing is dropped or cancelled by a policy in these worlds: the only cancellations are those of
+                            # branch resolution, which stop short of the join.  (Blocks with an empty branch are judged online:
+                            # join_cancelled_by_branch_resolution.)
+                            ctx.violate("C07", "join_cancelled_although_taken_branch_completed",
+                                        f"{j['uname']} was cancelled at {j['cancelled_at']}; the taken branch ({ex['uname']}) completed at {f}")
                         elif j["cancelled_at"] is not None and j["cancelled_at"] < f:
                             pass  # cancelled by a policy before the branch completed
                     continue
